@@ -82,6 +82,9 @@ func init() {
 			Spec{Name: "iter-arr-nested-T256", Kind: "iter+arr-small", T: 256, L: 3, Classes: []string{"t", "limA", "A:t", "s:M:t"}, Oracles: or},
 			Spec{Name: "iter-map-T256", Kind: "iter+map-small", T: 256, Keys: K, Classes: []string{"t", "limM", "limM+"}, Oracles: or},
 			Spec{Name: "iter-map-nested-T256", Kind: "iter+map-small", T: 256, Keys: 3, Classes: []string{"t", "limM", "A:t", "s:M:t"}, Oracles: or},
+			// keys that collide on the first level under the DEFAULT (pooled) digester: deeper digests of the cursor
+			// key are computed lazily while the iterator looks for its position
+			Spec{Name: "iter-map-realcoll-T256", Kind: "iter+map-small", T: 256, Keys: 1, Extra: map[string]int{"realcoll": 3}, Classes: []string{"t", "s60"}, Oracles: or},
 		)
 		r.ExploreSpecs(specs)
 		// collision groups (incl. external groups straddling slabs): every digest assignment of 3 keys
